@@ -5632,6 +5632,31 @@ def merge_parts(parts, reassign="voice"):
     # find the maximum number of staves for each part
     maximum_staves = [max(unique_staff, default=1) for unique_staff in unique_staves]
 
+    if reassign == "auto":
+        # in this mode voices and staves are looked up in mappings; these have
+        # to cover every element that gets renumbered (rests, directions and
+        # clefs too), not only the notes that appear in the note array
+        unique_voices = [
+            sorted(
+                {
+                    e.voice
+                    for e in p.iter_all(GenericNote, include_subclasses=True)
+                    if e.voice is not None
+                }
+            )
+            for p in parts
+        ]
+        unique_staves = [
+            sorted(
+                {
+                    e.staff if e.staff is not None else 1
+                    for cls in (GenericNote, Words, Direction, Clef)
+                    for e in p.iter_all(cls, include_subclasses=True)
+                }
+            )
+            for p in parts
+        ]
+
     if reassign in ["staff", "auto"]:
         el_to_discard = (
             Barline,
